@@ -625,6 +625,15 @@ func sliceValue[T scalarProtoFieldGoType](fd *FieldData, wt csproto.WireType, re
 			res = make([]T, 0, len(fd.data))
 		}
 		for _, data := range fd.data {
+			if len(data) == 0 && wt == csproto.WireTypeLengthDelimited {
+				// an empty length-delimited value (e.g. an empty string) is still one value
+				v, _, err := convertFn(data)
+				if err != nil {
+					return nil, err
+				}
+				res = append(res, v)
+				continue
+			}
 			// data contains 1 or more encoded values of type T
 			// . invoke convertFn at each successive offset to extract them
 			for offset := 0; offset < len(data); {
